@@ -178,6 +178,14 @@ pub open spec fn slice_wf(s: &SliceWithPos) -> bool {
 //@|    spec fn parse(s: Seq<u8>, pos: nat) -> PR<Self>;
 //@|    /// an eps-copy result `d` describes the value `v` (ghost)
 //@|    spec fn eps_rel<'a>(d: Self::DeserType<'a>, v: Self) -> bool;
+//@|    /// C11: the encoding is self-delimiting. A successful parse lies within
+//@|    /// the input; every strict prefix of it is `Short` (so a truncated stream is
+//@|    /// never a value), and every longer prefix parses to the same result.
+//@|    proof fn lemma_prefix(s: Seq<u8>, pos: nat, k: nat)
+//@|        requires Self::parse(s, pos) is Val, k <= s.len(),
+//@|        ensures Self::parse(s, pos)->Val_1 <= s.len(),
+//@|            k < Self::parse(s, pos)->Val_1 ==> Self::parse(s.take(k as int), pos) is Short,
+//@|            k >= Self::parse(s, pos)->Val_1 ==> Self::parse(s.take(k as int), pos) == Self::parse(s, pos);
 //@  sub <<fn _deserialize_full_inner(backend: &mut impl ReadWithPos) -> Result<Self>;>>
 //@  impl_arg
 //@  ret r
@@ -246,6 +254,9 @@ macro_rules! assumed_prim {
             type DeserType<'a> = Self;
             open spec fn parse(s: Seq<u8>, pos: nat) -> PR<Self> { parse_fixed(s, $n, |b: Seq<u8>| $of(b)) }
             open spec fn eps_rel<'a>(d: Self, v: Self) -> bool { d == v }
+            proof fn lemma_prefix(s: Seq<u8>, pos: nat, k: nat) {
+                if k >= $n { assert(s.take(k as int).take($n) =~= s.take($n)); }
+            }
             #[verifier::external_body]
             fn _deserialize_full_inner<R: ReadWithPos>(backend: &mut R) -> (r: Result<Self>) { unimplemented!() }
             #[verifier::external_body]
